@@ -79,6 +79,8 @@ def run(ctx):
         for i, c in enumerate(progs.gen(ctx, 120 if quick else 1500, length=14 if quick else 20, nl=4, bits=bits, seed=ctx.seed + 40)):
             R.add(progs.complete(c, org=[0x7c00, None, 0xc200][i % 3], bits=bits))
             nrand += 1
+    import corpus
+    ncorpus = len(corpus.add(R, tags=("C12", "C04")))      # real programs as written (/verif/corpus)
     R.run()
     ver = ctx.validate("Trace_Asm", R.traces(), nproc=12)
     F = Findings()
@@ -87,7 +89,7 @@ def run(ctx):
     rejected_cases = {r["id"] for r in ver["rej"]}
     cov = {
         "states": sum(s["distinct"] for s in ctx.tlc_stats), "transitions": sum(s["generated"] for s in ctx.tlc_stats),
-        "traces_validated_against_impl": len(R.cases), "trace_events": ver["events"],
+        "traces_validated_against_impl": len(R.cases), "corpus_programs": ncorpus, "trace_events": ver["events"],
         "programs": len(R.cases), "programs_without_diagnostic": ok,
         "programs_accepted_by_reference": ok - len([i for i in rejected_cases]),
         "programs_explained_by_known_findings": len({r["id"] for _, r in known}),
